@@ -820,8 +820,8 @@ def knot_removal_kv(knotvector, span, r):
     if r < 1:
         return knotvector
 
-    # Create a deep copy of the input knot  vector
-    kv_updated = deepcopy(knotvector)
+    # Create a copy of the input knot vector (a list: the input may be a tuple)
+    kv_updated = list(knotvector)
 
     # Shift knots
     for k in range(span + 1, len(knotvector)):
